@@ -4,6 +4,7 @@ Model construction from parse trees and the model API.
 
 from __future__ import annotations
 
+import bisect
 import traceback
 from collections import OrderedDict
 from collections.abc import Callable
@@ -1099,6 +1100,7 @@ class ReferenceResolver:
         self.model = model
         self.pos_crossref_list = pos_crossref_list  # tool support
         self.delayed_crossrefs = []
+        self._list_ref_positions = {}
 
     def has_unresolved_crossrefs(self, obj, attr_name=None):
         """
@@ -1205,7 +1207,14 @@ class ReferenceResolver:
                 else:
                     resolved_crossref_count += 1
                     if attr.mult in [MULT_ONEORMORE, MULT_ZEROORMORE]:
-                        attr_value.append(resolved)
+                        # Keep the textual order of references even if some
+                        # of them were postponed in previous steps.
+                        positions = self._list_ref_positions.setdefault(
+                            (id(obj), attr.name), []
+                        )
+                        idx = bisect.bisect(positions, crossref.position)
+                        positions.insert(idx, crossref.position)
+                        attr_value.insert(idx, resolved)
                     else:
                         setattr(obj, attr.name, resolved)
             else:  # crossref not in model
